@@ -1,0 +1,103 @@
+//go:build verif
+
+package attestations
+
+// Contracts for the deductive verifier in /verif (govc). Comment-only; compiled only with -tags verif.
+
+//@ contract TaggedSigningInput
+//@   pure
+//@   ensures layout: str(result) == sha256(str(attestationType) + sha256(str(data)))
+
+//@ contract normalizeSignature
+//@   pure
+//@   ensures length: len(result) == 65
+//@   ensures body_kept: len(sig) == 65 ==> substr(str(result), 0, 64) == substr(str(sig), 0, 64)
+
+// ---- quorum of distinct configured attestors (C28)
+
+// QuorumVerified: what an accepted proof means - at least the configured quorum (and at least one) of 65-byte
+// signatures, each recovering (secp256k1, over the domain-separated hash of exactly this data under this tag) to a
+// configured attestor address, pairwise distinct.
+//@ spec func signedHash(data string, tag int) string = sha256(str(tag) + sha256(data))
+//@ spec func QuorumVerified(cs ClientState, data string, sigs [][]byte, tag int) bool = len(sigs) > 0 && len(sigs) >= cs.MinRequiredSigs && (forall j int :: 0 <= j && j < len(sigs) ==> len(sigs[j]) == 65 && (exists a int :: 0 <= a && a < len(cs.AttestorAddresses) && hexAddr(cs.AttestorAddresses[a]) == sigAddr(signedHash(data, tag), str(normalizeSignature(sigs[j]))))) && (forall i int, j int :: 0 <= i && i < j && j < len(sigs) ==> sigAddr(signedHash(data, tag), str(normalizeSignature(sigs[i]))) != sigAddr(signedHash(data, tag), str(normalizeSignature(sigs[j]))))
+
+//@ contract (*ClientState).verifySignatures
+//@   let h = str(TaggedSigningInput(proof.AttestationData, attestationType))
+//@   let sigs = proof.Signatures
+//@   invariant #1 idx: 0 - 1 <= rangeindex && rangeindex < len(cs.AttestorAddresses) || (len(cs.AttestorAddresses) == 0 && rangeindex == 0 - 1)
+//@   invariant #1 only_configured: forall k bytes :: inmap(attestorSet, k) && attestorSet[k] ==> exists j int :: 0 <= j && j < len(cs.AttestorAddresses) && hexAddr(cs.AttestorAddresses[j]) == str(k)
+//@   invariant #2 idx: 0 - 1 <= rangeindex && rangeindex < len(sigs) || (len(sigs) == 0 && rangeindex == 0 - 1)
+//@   invariant #2 checked_so_far: forall j int :: 0 <= j && j <= rangeindex ==> len(sigs[j]) == 65 && (exists a int :: 0 <= a && a < len(cs.AttestorAddresses) && hexAddr(cs.AttestorAddresses[a]) == sigAddr(h, str(normalizeSignature(sigs[j]))))
+//@   invariant #2 attestor_set_kept: forall k bytes :: inmap(attestorSet, k) && attestorSet[k] ==> exists j int :: 0 <= j && j < len(cs.AttestorAddresses) && hexAddr(cs.AttestorAddresses[j]) == str(k)
+//@   invariant #2 seen_covers: forall j int :: 0 <= j && j <= rangeindex ==> inmap(seenSigners, bytes(sigAddr(h, str(normalizeSignature(sigs[j]))))) && seenSigners[bytes(sigAddr(h, str(normalizeSignature(sigs[j]))))]
+//@   invariant #2 distinct_so_far: forall i int, j int :: 0 <= i && i < j && j <= rangeindex ==> sigAddr(h, str(normalizeSignature(sigs[i]))) != sigAddr(h, str(normalizeSignature(sigs[j])))
+//@   ensures ghost: err == nil ==> QuorumVerified(deref(cs), str(proof.AttestationData), proof.Signatures, attestationType)
+//@   ensures quorum: err == nil ==> len(sigs) > 0 && len(sigs) >= cs.MinRequiredSigs
+//@   ensures every_signature_from_a_configured_attestor: forall j int :: err == nil && 0 <= j && j < len(sigs) ==> len(sigs[j]) == 65 && (exists a int :: 0 <= a && a < len(cs.AttestorAddresses) && hexAddr(cs.AttestorAddresses[a]) == sigAddr(h, str(normalizeSignature(sigs[j]))))
+//@   ensures signers_distinct: forall i int, j int :: err == nil && 0 <= i && i < j && j < len(sigs) ==> sigAddr(h, str(normalizeSignature(sigs[i]))) != sigAddr(h, str(normalizeSignature(sigs[j])))
+
+// ---- what is accepted (C28)
+//@ import host modules/core/24-host
+
+//@ contract ABIDecodePacketAttestation
+//@   pure
+//@   trusted ABI decoding (go-ethereum accounts/abi) is a deterministic function of the bytes
+
+//@ contract ABIDecodeStateAttestation
+//@   pure
+//@   trusted ABI decoding (go-ethereum accounts/abi) is a deterministic function of the bytes
+
+//@ contract getConsensusState
+//@   pure
+//@   trusted reads and decodes the consensus state stored for the height: a deterministic function of the client store
+
+//@ contract getClientState
+//@   pure
+//@   trusted reads and decodes the stored client state: a deterministic function of the client store
+
+//@ contract (*ClientState).VerifyClientMessage
+//@   let ap = deref(dyn(clientMsg, *AttestationProof))
+//@   ensures not_frozen: err == nil ==> !deref(cs).IsFrozen
+//@   ensures state_tag_quorum: err == nil ==> isType(clientMsg, *AttestationProof) && QuorumVerified(deref(cs), str(ap.AttestationData), ap.Signatures, AttestationTypeState)
+
+//@ contract (*ClientState).verifyMembership
+//@   let pa = deref(nth(ABIDecodePacketAttestation(unmarshalAs(proof, AttestationProof).AttestationData), 0))
+//@   let mp = dyn(path, commitmenttypesv2.MerklePath)
+//@   invariant #1 idx: 0 - 1 <= rangeindex && rangeindex < len(pa.Packets) || (len(pa.Packets) == 0 && rangeindex == 0 - 1)
+//@   ensures not_frozen: err == nil ==> !deref(cs).IsFrozen
+//@   ensures consensus_state_exists: err == nil ==> nth(getConsensusState(clientStore, cdc, height), 1)
+//@   ensures packet_tag_quorum: err == nil ==> QuorumVerified(deref(cs), str(unmarshalAs(proof, AttestationProof).AttestationData), unmarshalAs(proof, AttestationProof).Signatures, AttestationTypePacket)
+//@   ensures attested_height: err == nil ==> pa.Height == height.GetRevisionHeight()
+//@   ensures attested_commitment: err == nil ==> len(value) == 32 && isType(path, commitmenttypesv2.MerklePath) && len(mp.KeyPath) == 1 && exists i int :: 0 <= i && i < len(pa.Packets) && len(pa.Packets[i].Commitment) == 32 && len(pa.Packets[i].Path) == 32 && str(pa.Packets[i].Commitment) == str(value) && str(pa.Packets[i].Path) == keccak(str(mp.KeyPath[0]))
+//@   ensures pure: world(clientStore) == old(world(clientStore))
+
+//@ contract (*ClientState).verifyNonMembership
+//@   let pa = deref(nth(ABIDecodePacketAttestation(unmarshalAs(proof, AttestationProof).AttestationData), 0))
+//@   let mp = dyn(path, commitmenttypesv2.MerklePath)
+//@   let cpath = keccak(str(mp.KeyPath[0]))
+//@   invariant #1 idx: 0 - 1 <= rangeindex && rangeindex < len(pa.Packets) || (len(pa.Packets) == 0 && rangeindex == 0 - 1)
+//@   invariant #1 found_iff: foundMatchingPath <==> exists j int :: 0 <= j && j <= rangeindex && str(pa.Packets[j].Path) == cpath
+//@   invariant #1 all_zero_iff: allZeroCommitments <==> forall j int :: 0 <= j && j <= rangeindex && str(pa.Packets[j].Path) == cpath ==> len(pa.Packets[j].Commitment) == 32 && str(pa.Packets[j].Commitment) == str(nonMembershipCommitment)
+//@   ensures not_frozen: err == nil ==> !deref(cs).IsFrozen
+//@   ensures consensus_state_exists: err == nil ==> nth(getConsensusState(clientStore, cdc, height), 1)
+//@   ensures packet_tag_quorum: err == nil ==> QuorumVerified(deref(cs), str(unmarshalAs(proof, AttestationProof).AttestationData), unmarshalAs(proof, AttestationProof).Signatures, AttestationTypePacket)
+//@   ensures attested_height: err == nil ==> pa.Height == height.GetRevisionHeight()
+//@   ensures path_attested: err == nil ==> isType(path, commitmenttypesv2.MerklePath) && len(mp.KeyPath) == 1 && exists j int :: 0 <= j && j < len(pa.Packets) && str(pa.Packets[j].Path) == cpath
+//@   ensures only_zero_commitments: forall j int :: err == nil && 0 <= j && j < len(pa.Packets) && str(pa.Packets[j].Path) == cpath ==> len(pa.Packets[j].Commitment) == 32 && str(pa.Packets[j].Commitment) == str(nonMembershipCommitment)
+//@   ensures pure: world(clientStore) == old(world(clientStore))
+
+//@ contract (LightClientModule).CheckForMisbehaviour
+//@   let ap = deref(dyn(clientMsg, *AttestationProof))
+//@   let sa = deref(nth(ABIDecodeStateAttestation(ap.AttestationData), 0))
+//@   let view = l.storeProvider.ClientStore(ctx, clientID)
+//@   let cons = nth(getConsensusState(view, l.cdc, box(clienttypes.NewHeight(0, sa.Height))), 0)
+//@   let found = nth(getConsensusState(view, l.cdc, box(clienttypes.NewHeight(0, sa.Height))), 1)
+//@   ensures conflicting_timestamp: result == (found && deref(cons).Timestamp != sa.Timestamp)
+//@   ensures pure: world(ctx) == old(world(ctx))
+
+//@ contract (LightClientModule).UpdateStateOnMisbehaviour
+//@   let view = l.storeProvider.ClientStore(ctx, clientID)
+//@   let cs0 = deref(nth(getClientState(view, l.cdc), 0))
+//@   modifies world(ctx)
+//@   ensures frozen_stored: exists x ClientState :: x.IsFrozen && x.AttestorAddresses == cs0.AttestorAddresses && x.MinRequiredSigs == cs0.MinRequiredSigs && x.LatestHeight == cs0.LatestHeight && vget(l.storeProvider.ClientStore(ctx, clientID), host.ClientStateKey()) == marshalOf(x)
+//@   ensures confined: onlyPrefixChanged(old(world(ctx)), world(ctx), "clients/" + clientID + "/")
